@@ -86,7 +86,11 @@ Inductive atom :=
 | Open
 | Close.
 
-Definition caps := list (nat * nat).
+(** matcher state: [cur] = text consumed so far inside the currently open group (groups are
+    not nested in the two patterns), [cs] = finished groups, last first *)
+Definition caps := list line.
+Definition rec (cur : option line) (x : line) : option line :=
+  match cur with Some b => Some (b ++ x) | None => None end.
 
 (** tries counts lo+k, lo+k-1, ..., lo *)
 Fixpoint try_down (cont : nat -> option caps) (lo k : nat) : option caps :=
@@ -95,41 +99,36 @@ Fixpoint try_down (cont : nat -> option caps) (lo k : nat) : option caps :=
   | None => match k with O => None | S k' => try_down cont lo k' end
   end.
 
-Fixpoint mseq (re : list atom) (s : line) (pos : nat) (opens : list nat) (cs : caps) : option caps :=
+Fixpoint mseq (re : list atom) (s : line) (cur : option line) (cs : caps) : option caps :=
   match re with
   | [] => Some (rev cs)
   | Ch p :: re' =>
       match s with
-      | c :: r => if p c then mseq re' r (S pos) opens cs else None
+      | c :: r => if p c then mseq re' r (rec cur [c]) cs else None
       | [] => None
       end
   | Star p :: re' =>
-      try_down (fun k => mseq re' (skipn k s) (pos + k) opens cs) 0 (run p s)
+      try_down (fun k => mseq re' (skipn k s) (rec cur (firstn k s)) cs) 0 (run p s)
   | Plus p :: re' =>
       match run p s with
       | O => None
-      | S m => try_down (fun k => mseq re' (skipn k s) (pos + k) opens cs) 1 m
+      | S m => try_down (fun k => mseq re' (skipn k s) (rec cur (firstn k s)) cs) 1 m
       end
   | Opt p :: re' =>
-      try_down (fun k => mseq re' (skipn k s) (pos + k) opens cs) 0 (Nat.min 1 (run p s))
-  | Open :: re' => mseq re' s pos (pos :: opens) cs
+      try_down (fun k => mseq re' (skipn k s) (rec cur (firstn k s)) cs) 0 (Nat.min 1 (run p s))
+  | Open :: re' => mseq re' s (Some []) cs
   | Close :: re' =>
-      match opens with
-      | st :: o' => mseq re' s pos o' ((st, pos) :: cs)
-      | [] => None
+      match cur with
+      | Some b => mseq re' s None (b :: cs)
+      | None => None
       end
   end.
 
-(** re.search: leftmost start *)
-Fixpoint search_from (re : list atom) (s : line) (pos : nat) : option caps :=
-  match mseq re s pos [] [] with
+(** re.search: leftmost start; result = the groups *)
+Fixpoint search (re : list atom) (s : line) : option (list line) :=
+  match mseq re s None [] with
   | Some c => Some c
-  | None => match s with [] => None | _ :: r => search_from re r (S pos) end
-  end.
-Definition search (re : list atom) (s : line) : option (list line) :=
-  match search_from re s 0 with
-  | Some cs => Some (map (fun ab => slice (fst ab) (snd ab) s) cs)
-  | None => None
+  | None => match s with [] => None | _ :: r => search re r end
   end.
 
 Definition lits (s : string) : list atom := map (fun c => Ch (is_c c)) (list_ascii_of_string s).
